@@ -608,6 +608,10 @@ Section Q.
     - intros s H. unfold fmapM, bindM. cbn. split; [apply (clear_boundary_ok s H)|reflexivity].
   Qed.
 
+  (* the constructors initialise every lazily computed attribute to None: a fresh mesh has the empty cache *)
+  Lemma fresh_cache_is_empty : forall a : attr, In a inits_none /\ attr_is_none a empty_cache = true.
+  Proof. intros a. split; [destruct a; cbn; tauto|destruct a; reflexivity]. Qed.
+
   Lemma empty_ok : ok empty_cache.
   Proof. split; [split; [|split; [|split]]|]; left; cbn; repeat split. Qed.
 
